@@ -2,6 +2,7 @@ package main
 
 import (
 	"go/ast"
+	"go/token"
 )
 
 // Gen.Queue: the guards, wrap tests and index expressions of queue/queue.go
@@ -93,7 +94,7 @@ func init() {
 					fs.set("addWrapped", s, "`Add`: `"+x.Src(w.Body.List[0])+"`")
 				}
 			}
-			x.wantStmts("Add (grow)", rest, "w := append(q.vs, v)", "q.vs = w[:cap(w)]", "q.n++")
+			x.wantStmts("Add (grow)", rest, "w := append(q.vs, v) ||| q.vs = append(q.vs, v)", "q.vs = w[:cap(w)] ||| q.vs = q.vs[:cap(q.vs)]", "q.n++")
 		}
 
 		// --- Push
@@ -114,7 +115,7 @@ func init() {
 					fs.set("pushWrapped", s, "`Push`: `"+x.Src(w.Body.List[0])+"`")
 				}
 			}
-			if x.wantStmts("Push (grow)", rest, "w := append(q.vs, v)", "q.vs = w[:cap(w)]", "*", "q.vs[q.head] = v", "q.n++") {
+			if x.wantStmts("Push (grow)", rest, "w := append(q.vs, v) ||| q.vs = append(q.vs, v)", "q.vs = w[:cap(w)] ||| q.vs = q.vs[:cap(q.vs)]", "*", "q.vs[q.head] = v", "q.n++") {
 				if s, ok := x.assignBody(rest[2], "q.head", V, true); ok {
 					fs.set("pushGrowHead", s, "`Push` (full): `"+x.Src(rest[2])+"` after the buffer has grown (`cap` = the new `len(q.vs)`)")
 				}
@@ -143,14 +144,22 @@ func init() {
 			b := pop.Body.List
 			if x.wantStmts("Pop", b, "*", "out := q.vs[q.head]", "q.n--", "*", "return out, true") {
 				r := b[3].(*ast.IfStmt)
-				cond("popResets", r.Cond)
-				els, _ := r.Else.(*ast.BlockStmt)
-				if len(r.Body.List) != 1 || els == nil || len(els.List) != 1 {
-					x.fail("Pop: not `if … { q.head = 0 } else { q.head = … }`")
+				// roles by content: the branch that stores a CONSTANT into q.head is the reset, whichever comes first
+				isReset := func(l []ast.Stmt) bool {
+					if len(l) != 1 {
+						return false
+					}
+					as, ok := l[0].(*ast.AssignStmt)
+					return ok && len(as.Lhs) == 1 && len(as.Rhs) == 1 && as.Tok == token.ASSIGN && x.Src(as.Lhs[0]) == "q.head" && constInt(as.Rhs[0])
+				}
+				c, reset, adv, ok := orientIf(r, isReset)
+				if !ok || len(reset) != 1 || len(adv) != 1 || !isReset(reset) {
+					x.fail("Pop: not `if <empty> { q.head = <constant> } else { q.head = … }` (in either order)")
 				} else {
-					resetVal("Pop", "popResetHead", r.Body.List[0])
-					if s, ok := x.assignBody(els.List[0], "q.head", V, false); ok {
-						fs.set("popHead", s, "`Pop`: `"+x.Src(els.List[0])+"`")
+					cond("popResets", c)
+					resetVal("Pop", "popResetHead", reset[0])
+					if s, ok := x.assignBody(adv[0], "q.head", V, false); ok {
+						fs.set("popHead", s, "`Pop`: `"+x.Src(adv[0])+"`")
 					}
 				}
 			}
